@@ -405,7 +405,6 @@ impl NetcodeServer {
                 packet.packet_type()
             );
 
-            client.last_packet_received_time = self.current_time;
             match client.state {
                 ConnectionState::Connected => match packet {
                     Packet::Disconnect => {
@@ -420,6 +419,7 @@ impl NetcodeServer {
                         });
                     }
                     Packet::Payload(payload) => {
+                        client.last_packet_received_time = self.current_time;
                         if !client.confirmed {
                             log::trace!("Confirmed connection for Client {}", client.client_id);
                             client.confirmed = true;
@@ -430,6 +430,7 @@ impl NetcodeServer {
                         });
                     }
                     Packet::KeepAlive { .. } => {
+                        client.last_packet_received_time = self.current_time;
                         if !client.confirmed {
                             log::trace!("Confirmed connection for Client {}", client.client_id);
                             client.confirmed = true;
